@@ -569,7 +569,7 @@ func c15(c *rig.Ctx) {
 			}
 		}
 		r := c.SubRand("c15/pairs16/"+n, 0)
-		np := c.Pick(200000, 4000000)
+		np := c.Pick(200000, 40000000)
 		x.checkSet(s, vals, func(nv int, f func(i, j int)) {
 			for i := 0; i < nv; i++ {
 				f(i, i)
@@ -589,7 +589,7 @@ func c15(c *rig.Ctx) {
 	}
 
 	// ---- (B) wider encodings
-	nRand := c.Pick(160, 1200)
+	nRand := c.Pick(160, 2500)
 	for _, s := range specs {
 		c.Case("c15/pool/"+s.name, nil)
 		r := c.SubRand("c15/pool/"+s.name, 0)
@@ -623,7 +623,7 @@ type c15Field struct {
 
 func c15Tuples(x *c15Run, specs []*encSpec) {
 	c := x.c
-	nDesc := c.Pick(400, 12000)
+	nDesc := c.Pick(400, 40000)
 	var ordered []*encSpec
 	for _, s := range specs {
 		if s.cmp != nil {
@@ -860,7 +860,7 @@ func c15Collations(x *c15Run) {
 		sql.Collation_utf8mb4_unicode_ci, sql.Collation_utf8mb4_bin, sql.Collation_utf8mb3_general_ci, sql.Collation_utf8mb4_unicode_520_ci, sql.Collation_utf8mb4_0900_as_ci}
 	runes := []string{"a", "A", "á", "Á", "à", "ä", "b", "B", "e", "é", "E", "ê", "n", "ñ", "Ñ", "o", "ö", "ß", "s", "ss", "z", "Z", " ", "_", "0", "9", "æ", "œ", "Æ",
 		"\u0301", "\ufffd", "中", "丮", "😀", "😁", "ǆ", "ǅ", "İ", "ı", "i", "I"}
-	nWords := c.Pick(90, 400)
+	nWords := c.Pick(90, 700)
 	for ci, coll := range colls {
 		if coll.Sorter() == nil {
 			c.Count("c15.collations_without_sorter_skipped", 1)
